@@ -124,19 +124,19 @@ func (s *factState) equal(o *factState) bool {
 
 // FuncFacts holds the result of the analysis of one function.
 type FuncFacts struct {
-	fn      *ssa.Function
-	in      map[*ssa.BasicBlock]*factState
-	at      map[ssa.Instruction]*factState   // state just before each call / return / store instruction
-	edgeIn  map[*ssa.BasicBlock][]*factState // per predecessor (same order as Preds): state carried by that edge
-	phiImpl map[*ssa.BasicBlock][]*factState // edge states of the first pass, used for flag implications
-	spillOf map[*ssa.Alloc]*ssa.Parameter    // value parameters spilled to a local that is never written again
-	mutated map[string]bool                  // canonical receivers on which the function calls a mutator
-	ids     map[ssa.Value]int
-	doneIDs map[ssa.Instruction]int // "this call has been executed" facts (path-sensitive ordering)
-	inRetry bool
+	fn        *ssa.Function
+	in        map[*ssa.BasicBlock]*factState
+	at        map[ssa.Instruction]*factState   // state just before each call / return / store instruction
+	edgeIn    map[*ssa.BasicBlock][]*factState // per predecessor (same order as Preds): state carried by that edge
+	phiImpl   map[*ssa.BasicBlock][]*factState // edge states of the first pass, used for flag implications
+	spillOf   map[*ssa.Alloc]*ssa.Parameter    // value parameters spilled to a local that is never written again
+	mutated   map[string]bool                  // canonical receivers on which the function calls a mutator
+	ids       map[ssa.Value]int
+	doneIDs   map[ssa.Instruction]int // "this call has been executed" facts (path-sensitive ordering)
+	inRetry   bool
 	implDepth int
-	escaped map[*ssa.Alloc]bool
-	pure    func(*ssa.Function) bool
+	escaped   map[*ssa.Alloc]bool
+	pure      func(*ssa.Function) bool
 	// storedFields: fields (by struct type + index) stored to anywhere in the function
 	fieldStored map[string]bool
 }
